@@ -298,7 +298,7 @@ class Sim:
         return show(p)
 
     def load(self, p, bits=64):
-        if p[0] in ('field', 'global') and ('rd', p) not in self.store:
+        if p[0] in ('field', 'global', 'deref') and ('rd', p) not in self.store:
             self.store[('rd', p)] = True
             if getattr(self, 'cur_fn', None) is not None:
                 self.event({'kind': 'read', 'path': p, 'line': None})
@@ -449,6 +449,8 @@ class Sim:
             return C(-v[1], bits) if is_const(v) else ('neg', v, bits)
         if op == '+':
             return self.rv(e)
+        if op in ('__extension__', '__real', '__imag'):
+            return e
         if op in ('++', '--', 'post++', 'post--'):
             p = self.lv_path(e)
             old = self.rv(e)
@@ -808,7 +810,12 @@ class Sim:
                 self.writes.append(epath)
                 return FALSE
             return TRUE
-        if m in ('test_and_set', 'clear', 'wait', 'notify_one', 'notify_all', 'is_lock_free'):
+        if m in ('wait', 'notify_one', 'notify_all'):
+            vals = [self.rv(self.ev(x)) for x in a[:1]] if m == 'wait' else []
+            base.update(op=m, orders=[self.order_of(a[1]) if len(a) > 1 else 'seq_cst'], value=vals[0] if vals else None)
+            self.event(base)
+            return None
+        if m in ('test_and_set', 'clear', 'is_lock_free'):
             raise AnalysisBroken('%s:%s: atomic operation %s is not a recognised idiom' % (self.cur_fn['file'], line, m))
         raise AnalysisBroken('%s:%s: unknown atomic member %s' % (self.cur_fn['file'], line, m))
 
